@@ -495,13 +495,33 @@ End Run.
 
 (* ---------- internal/httputil/seek.go: readSeekCloser ---------- *)
 
-Record rsc := mkRsc { k_rc : str; k_size : N; k_off : N; k_closed : bool }.
+(* How a response body hands out its bytes (io.Reader leaves this open): at most
+   [bm_chunk] bytes per Read call (0 = no limit: short reads otherwise), and the final
+   bytes either together with io.EOF in one call ([bm_eofd], what net/http does for a
+   Content-Length body) or followed by a separate (0, io.EOF). *)
+Record bmode := mkBm { bm_chunk : N; bm_eofd : bool }.
+
+Definition read_len (m : bmode) (n avail : N) : N :=
+  let a := N.min n avail in
+  if bm_chunk m =? 0 then a else N.min a (bm_chunk m).
+
+Definition is_nil {A} (l : list A) : bool := match l with [] => true | _ => false end.
+
+(* one Read(p) with len(p) = n on a body with remaining bytes [rc]: (bytes, rest, EOF?) *)
+Definition read_chunk (m : bmode) (n : N) (rc : str) : str * str * bool :=
+  let l := N.to_nat (read_len m n (len rc)) in
+  let got := firstn l rc in
+  let rest := skipn l rc in
+  (got, rest, match rc with [] => true | _ => bm_eofd m && negb (is_nil got) && is_nil rest end).
+
+(* k_bi: how many bodies were opened after the first one (the i-th body behaves as [modes i]) *)
+Record rsc := mkRsc { k_rc : str; k_size : N; k_off : N; k_closed : bool; k_bi : nat }.
 
 Inductive whence := SeekStart | SeekCurrent | SeekEnd.
 Inductive sop := SRead (n : N) | SSeek (off : Z) (w : whence) | SClose.
 Inductive sout :=
-| SBytes (c : str)          (* Read (io.ReadFull semantics: up to n bytes, fewer at EOF) *)
-| SPos (n : N)              (* Seek result *)
+| SData (c : str) (eof : bool)   (* one Read call: the bytes and whether io.EOF came with them *)
+| SPos (n : N)                   (* Seek result *)
 | SErr
 | SClosed.
 
@@ -509,40 +529,45 @@ Inductive sout :=
 Definition range_body (content : str) (a bb : N) : option str :=
   if (a <=? bb) && (bb <? len content) then Some (slice a bb content) else None.
 
-Definition rsc_step (content : str) (k : rsc) (o : sop) : rsc * list (N * N) * sout :=
-  match o with
-  | SClose => (mkRsc (k_rc k) (k_size k) (k_off k) true, [], SClosed)
-  | SRead n =>
-      if k_closed k then (k, [], SErr)
-      else
-        let got := firstn (N.to_nat n) (k_rc k) in
-        (mkRsc (skipn (N.to_nat n) (k_rc k)) (k_size k) (k_off k + len got) false, [], SBytes got)
-  | SSeek off w =>
-      if k_closed k then (k, [], SErr)
-      else
-        let tgt : Z := match w with
-                       | SeekStart => off
-                       | SeekCurrent => (off + Z.of_N (k_off k))%Z
-                       | SeekEnd => (off + Z.of_N (k_size k))%Z
-                       end in
-        if (tgt <? 0)%Z then (k, [], SErr)
+Section Seek.
+  Variable modes : nat -> bmode.
+
+  Definition rsc_step (content : str) (k : rsc) (o : sop) : rsc * list (N * N) * sout :=
+    match o with
+    | SClose => (mkRsc (k_rc k) (k_size k) (k_off k) true (k_bi k), [], SClosed)
+    | SRead n =>
+        if k_closed k then (k, [], SErr)
         else
-          let t := Z.to_N tgt in
-          if t =? k_off k then (k, [], SPos t)
-          else if k_size k <=? t then (mkRsc [] (k_size k) t false, [], SPos t)
+          let '(got, rest, eof) := read_chunk (modes (k_bi k)) n (k_rc k) in
+          (* rsc.offset += int64(n), whatever err is *)
+          (mkRsc rest (k_size k) (k_off k + len got) false (k_bi k), [], SData got eof)
+    | SSeek off w =>
+        if k_closed k then (k, [], SErr)
+        else
+          let tgt : Z := match w with
+                         | SeekStart => off
+                         | SeekCurrent => (off + Z.of_N (k_off k))%Z
+                         | SeekEnd => (off + Z.of_N (k_size k))%Z
+                         end in
+          if (tgt <? 0)%Z then (k, [], SErr)
           else
-            match range_body content t (k_size k - 1) with
-            | Some body => (mkRsc body (k_size k) t false, [(t, k_size k - 1)], SPos t)
-            | None => (k, [(t, k_size k - 1)], SErr)
-            end
-  end.
+            let t := Z.to_N tgt in
+            if t =? k_off k then (k, [], SPos t)
+            else if k_size k <=? t then (mkRsc [] (k_size k) t false (k_bi k), [], SPos t)
+            else
+              match range_body content t (k_size k - 1) with
+              | Some body => (mkRsc body (k_size k) t false (S (k_bi k)), [(t, k_size k - 1)], SPos t)
+              | None => (k, [(t, k_size k - 1)], SErr)
+              end
+    end.
 
-Fixpoint rsc_run (content : str) (k : rsc) (os : list sop) : list (list (N * N) * sout) :=
-  match os with
-  | [] => []
-  | o :: rest =>
-      let '(k1, rq, out) := rsc_step content k o in
-      (rq, out) :: rsc_run content k1 rest
-  end.
+  Fixpoint rsc_run (content : str) (k : rsc) (os : list sop) : list (list (N * N) * sout) :=
+    match os with
+    | [] => []
+    | o :: rest =>
+        let '(k1, rq, out) := rsc_step content k o in
+        (rq, out) :: rsc_run content k1 rest
+    end.
+End Seek.
 
-Definition rsc_open (content : str) (size : N) : rsc := mkRsc content size 0 false.
+Definition rsc_open (content : str) (size : N) : rsc := mkRsc content size 0 false 0.
